@@ -137,15 +137,19 @@ Proof. exact add_unequal. Qed.
 
 Theorem C14_mutate_discard_add_back : forall (num_text : float -> string) key g s,
   gp_wf g -> all_wf (all_preds s) -> In (gp_untyped g) (fact_texts s) ->
-  state_eq num_text (add_fact key g (discard_fact (gp_untyped g) s)) s = true /  state_eq num_text s (add_fact key g (discard_fact (gp_untyped g) s)) = true.
+  state_eq num_text (add_fact key g (discard_fact (gp_untyped g) s)) s = true /\
+  state_eq num_text s (add_fact key g (discard_fact (gp_untyped g) s)) = true.
 Proof. exact discard_add_back. Qed.
 
 Theorem C14_mutate_copy_keeps_value : forall (num_text : float -> string) t s, In t (fact_texts s) ->
-  state_eq num_text (discard_fact t s) (state_copy s) = false /  state_eq num_text (state_copy s) (discard_fact t (state_copy s)) = false.
+  state_eq num_text (discard_fact t s) (state_copy s) = false /\
+  state_eq num_text (state_copy s) (discard_fact t (state_copy s)) = false.
 Proof. exact copy_then_discard. Qed.
 
 Theorem C14_mutate_example :
-  gp_wf ex_g1 /\ all_wf (all_preds ex_m) /\ In (gp_untyped ex_g1) (fact_texts ex_m) /  all_preds (discard_fact (gp_untyped ex_g1) ex_m) = [ex_g2] /  ~ In (gp_untyped ex_g1) (fact_texts (discard_fact (gp_untyped ex_g1) ex_m)).
+  gp_wf ex_g1 /\ all_wf (all_preds ex_m) /\ In (gp_untyped ex_g1) (fact_texts ex_m) /\
+  all_preds (discard_fact (gp_untyped ex_g1) ex_m) = [ex_g2] /\
+  ~ In (gp_untyped ex_g1) (fact_texts (discard_fact (gp_untyped ex_g1) ex_m)).
 Proof. exact ex_mutate_hypotheses. Qed.
 
 (* ---------- serialization ---------- *)
